@@ -2,6 +2,7 @@ package filesystem
 
 import (
 	"context"
+	"syscall"
 	"time"
 
 	"github.com/ARM-software/golang-utils/utils/commonerrors"
@@ -110,10 +111,24 @@ func VerifC17_StaleOnlyAfterTwoPeriods() {
 	} else {
 		verif.Assert("older_than_two_periods_is_stale", before.Milliseconds() <= 2*vPeriod.Milliseconds())
 	}
-	// a failing backend must never make a lock look stale
+	// a failing backend must never make a lock look stale: every operation failing ...
 	lfs.before = func(op *vOp) error { return commonerrors.ErrUnexpected }
 	verif.Assert("backend_failure_is_not_staleness", !B.lock.IsStale())
+	// ... or only the k-th one (e.g. the listing works but the heartbeat file cannot be read)
+	failAt := verif.Len("failAt", 1, 14)
+	count := 0
+	lfs.before = func(op *vOp) error {
+		count++
+		if count == failAt {
+			return pathErr(op.name, op.path, syscall.EIO)
+		}
+		return nil
+	}
+	staleUnderFault := B.lock.IsStale()
 	lfs.before = nil
+	if staleUnderFault {
+		verif.Assert("single_backend_failure_is_not_staleness", age > 2*vPeriod)
+	}
 }
 
 // VerifC17_SlowStorage: every backend operation takes some (virtual) time --
